@@ -184,6 +184,18 @@ Definition race_free (tr : list event) : Prop :=
 Definition write_once (tr : list event) : Prop :=
   forall i j t1 t2 c, nth_error tr i = Some (EWr t1 (LCell c)) -> nth_error tr j = Some (EWr t2 (LCell c)) -> i = j.
 
+(* what makes the Go runtime abort with "fatal error: concurrent map writes" / "concurrent map
+   read and map write": two accesses to one of the maps (sc.packages, or the Schemas map of
+   a package), by different goroutines, at least one of them a write, not ordered by
+   happens-before *)
+Definition is_map_loc (l : loc) : bool :=
+  match l with LPkgs | LSchemas _ => true | _ => false end.
+
+Definition concurrent_map_access (tr : list event) : Prop :=
+  exists i j e1 e2 l w1 w2, i < j /\ nth_error tr i = Some e1 /\ nth_error tr j = Some e2 /\
+    ev_tid e1 <> ev_tid e2 /\ ev_access e1 = Some (l, w1) /\ ev_access e2 = Some (l, w2) /\
+    is_map_loc l = true /\ (w1 = true \/ w2 = true) /\ ~ ordered tr i j e1 e2.
+
 (* ---- a decidable check used for the refutation ---------------------------------------- *)
 Definition conflict_b (e1 e2 : event) : bool :=
   negb (Nat.eqb (ev_tid e1) (ev_tid e2)) &&
